@@ -1095,6 +1095,117 @@ example : (runLoop (fun s => Skel.run (1 / 5) s [.trim "J2", .trim "J1"]) none 5
 example : (runLoop (fun s => Skel.run (1 / 5) s [.trim "J2"]) (some 0) 5 0 demoSkel).map (·.nodes.map (·.name)) = some ["R", "J1", "T"] := by
   decide +kernel
 
+/-! ### the whole traversal, for every iteration order -/
+
+theorem foldl_preserves {σ β : Type} (P : σ → Prop) (f : σ → β → σ) (h : ∀ s b, P s → P (f s b)) (l : List β) (s : σ) (hs : P s) :
+    P (l.foldl f s) := by
+  induction l generalizing s with
+  | nil => exact hs
+  | cons b t ih => exact ih _ (h s b hs)
+
+theorem foldl_count_le {β : Type} (f : Skel → β → Skel) (h : ∀ s b, (f s b).junctionCount ≤ s.junctionCount) (l : List β) (s : Skel) :
+    (l.foldl f s).junctionCount ≤ s.junctionCount := by
+  induction l generalizing s with
+  | nil => exact Nat.le_refl _
+  | cons b t ih => exact Nat.le_trans (ih _) (h s b)
+
+/-- one cycle keeps the invariant and never adds a junction, whatever the three orders are -/
+theorem cyclePass_inv (orig : Skel) (thr : Rat) (o : Order) (bt sm pm : Bool) (s : Skel) (inv : SkelInv orig s) :
+    SkelInv orig (cyclePass thr o bt sm pm s) := by
+  have ht : ∀ s, SkelInv orig s → SkelInv orig (trimPass thr o s) := fun s hs =>
+    foldl_preserves (SkelInv orig) _ (fun s j h => skelInv_branchTrim orig s h j thr) _ s hs
+  have hsm : ∀ s, SkelInv orig s → SkelInv orig (seriesPass thr o s) := fun s hs =>
+    foldl_preserves (SkelInv orig) _ (fun s j h => by
+      show SkelInv orig (match o.nbrs s j with
+        | [n0, n1] => seriesMerge s j n0 n1 thr
+        | _ => s)
+      split
+      · exact skelInv_seriesMerge orig s h _ _ _ thr
+      · exact h) _ s hs
+  have hp : ∀ s, SkelInv orig s → SkelInv orig (parallelPass thr o s) := fun s hs =>
+    foldl_preserves (SkelInv orig) _ (fun s j h =>
+      foldl_preserves (SkelInv orig) _ (fun s' n h' =>
+        foldl_preserves (SkelInv orig) _ (fun s'' pq h'' => skelInv_parallelMerge orig s'' h'' j n pq.1 pq.2 thr) _ s' h') _ s h) _ s hs
+  unfold cyclePass
+  cases bt <;> cases sm <;> cases pm <;> simp only [if_true, if_false, Bool.false_eq_true] <;>
+    first
+    | exact inv
+    | exact hp _ (hsm _ (ht _ inv)) | exact hp _ (hsm _ inv) | exact hp _ (ht _ inv) | exact hsm _ (ht _ inv)
+    | exact hp _ inv | exact hsm _ inv | exact ht _ inv
+
+theorem cyclePass_count_le (thr : Rat) (o : Order) (bt sm pm : Bool) (s : Skel) :
+    (cyclePass thr o bt sm pm s).junctionCount ≤ s.junctionCount := by
+  have ht : ∀ s, (trimPass thr o s).junctionCount ≤ s.junctionCount := fun s =>
+    foldl_count_le _ (fun s j => step_junctionCount_le thr s (.trim j)) _ s
+  have hsm : ∀ s, (seriesPass thr o s).junctionCount ≤ s.junctionCount := fun s =>
+    foldl_count_le _ (fun s j => by
+      show (match o.nbrs s j with
+        | [n0, n1] => seriesMerge s j n0 n1 thr
+        | _ => s).junctionCount ≤ _
+      split
+      · exact step_junctionCount_le thr s (.series j _ _)
+      · exact Nat.le_refl _) _ s
+  have hp : ∀ s, (parallelPass thr o s).junctionCount ≤ s.junctionCount := fun s => by
+    unfold parallelPass
+    exact foldl_count_le _ (fun s j =>
+      foldl_count_le _ (fun s' n =>
+        foldl_count_le _ (fun s'' (pq : String × String) => step_junctionCount_le thr s'' (.parallel j n pq.1 pq.2)) _ s') _ s) _ s
+  unfold cyclePass
+  cases bt <;> cases sm <;> cases pm <;> simp only [if_true, if_false, Bool.false_eq_true] <;>
+    first
+    | exact Nat.le_refl _
+    | exact Nat.le_trans (hp _) (Nat.le_trans (hsm _) (ht _)) | exact Nat.le_trans (hp _) (hsm _) | exact Nat.le_trans (hp _) (ht _)
+    | exact Nat.le_trans (hsm _) (ht _) | exact hp _ | exact hsm _ | exact ht _
+
+theorem runLoop_inv (orig : Skel) (cycle : Skel → Skel) (hc : ∀ s, SkelInv orig s → SkelInv orig (cycle s)) (mc : Option Nat)
+    (fuel iter : Nat) (s r : Skel) (inv : SkelInv orig s) (h : runLoop cycle mc fuel iter s = some r) : SkelInv orig r := by
+  induction fuel generalizing iter s with
+  | zero => simp [runLoop] at h
+  | succ n ih =>
+    unfold runLoop at h
+    simp only at h
+    split_ifs at h with hstop
+    · cases h; exact hc s inv
+    · exact ih _ _ (hc s inv) h
+
+/-- **skeleton_result_independent_properties**: for EVERY junction order, neighbour order and parallel-edge order, every
+threshold, option combination, exclusion lists and `max_cycles`, `_Skeletonize.run` terminates and its result satisfies the
+invariant: tanks, reservoirs, pumps, valves, control-referenced / excluded elements retained, demand entries permuted, the
+skeleton map a partition of the original nodes over retained nodes -/
+theorem skeleton_result_independent_properties (nodes : List SNode) (links : List SLink) (jx px : List String) (thr : Rat)
+    (hn : (names nodes).Nodup) (hl : (links.map (·.name)).Nodup) (o : Order) (bt sm pm : Bool) (mc : Option Nat) :
+    ∃ r, skeletonizeRun thr o bt sm pm mc (Skel.init nodes links jx px) = some r ∧ SkelInv (Skel.init nodes links jx px) r := by
+  have hterm := run_terminates (cyclePass thr o bt sm pm) (cyclePass_count_le thr o bt sm pm) mc
+    ((Skel.init nodes links jx px).junctionCount + 1) 0 (Skel.init nodes links jx px) (Nat.lt_succ_self _)
+  obtain ⟨r, hr⟩ := Option.isSome_iff_exists.mp hterm
+  exact ⟨r, hr, runLoop_inv _ _ (fun s hs => cyclePass_inv _ thr o bt sm pm s hs) mc _ 0 _ r
+    (skelInv_init nodes links jx px hn hl) hr⟩
+
+/-- X and Y are control-referenced junctions joined through J by two equal small pipes: which neighbour is `neighbors[0]` decides
+the tie of "closest junction", the dominant pipe of equal diameters and the direction of the merged pipe -/
+def orderDemo : Skel := Skel.init
+  [⟨"R", .reservoir, []⟩, ⟨"X", .junction, [⟨1, "", ""⟩]⟩, ⟨"J", .junction, [⟨5, "", ""⟩]⟩, ⟨"Y", .junction, [⟨2, "", ""⟩]⟩]
+  [⟨"M", "R", "X", true, 1, 100, 0, 1, false⟩, ⟨"PX", "X", "J", true, 1 / 10, 50, 0, 1, false⟩, ⟨"PY", "J", "Y", true, 1 / 10, 50, 0, 1, false⟩]
+  ["X", "Y"] []
+
+def mapView (r : Option Skel) : Option (List (String × List String)) := r.map (·.map)
+def linkView (r : Option Skel) : Option (List (String × String × String)) := r.map fun s => s.links.map (fun l => (l.name, l.a, l.b))
+def demandView (r : Option Skel) : Option (List (String × List Rat)) := r.map fun s => s.nodes.map (fun n => (n.name, n.demands.map (·.base)))
+
+/-- **which outputs DO depend on the order**: the node that represents the removed junction in the map (and receives its
+demand), the name kept for the merged pipe and its direction — two orders, same network, both results satisfy every promise -/
+theorem skeleton_outputs_depend_on_order :
+    let a := skeletonizeRun (1 / 5) Order.natural true true true none orderDemo
+    let b := skeletonizeRun (1 / 5) Order.reversed true true true none orderDemo
+    mapView a = some [("R", ["R"]), ("X", ["X"]), ("J", []), ("Y", ["Y", "J"])] ∧
+    mapView b = some [("R", ["R"]), ("X", ["X", "J"]), ("J", []), ("Y", ["Y"])] ∧
+    linkView a = some [("M", "R", "X"), ("PX", "X", "Y")] ∧
+    linkView b = some [("M", "R", "X"), ("PY", "Y", "X")] ∧
+    demandView a = some [("R", []), ("X", [1]), ("Y", [2, 5])] ∧
+    demandView b = some [("R", []), ("X", [1, 5]), ("Y", [2])] ∧
+    a.map (skelOracle orderDemo) = some "ok" ∧ b.map (skelOracle orderDemo) = some "ok" := by
+  refine ⟨?_, ?_, ?_, ?_, ?_, ?_, ?_, ?_⟩ <;> decide +kernel
+
 /-! ### non-vacuity of the hypotheses used above -/
 
 def demoPipe : Pipe := { name := "P", a := "A", b := "B", length := 100, diam := 1, rough := 100, minor := 0, initStatus := 1, status := 1, cv := true, verts := [(5, 5)] }
